@@ -133,7 +133,13 @@ class C02(Property):
                     d["source"] = rng.choice(["file", "pil-file"])
                     d["animated"] = rng.choice([2, 3])
                     d["frame_no"] = rng.randrange(d["animated"])
+                    # the caller's PIL image may stand at any frame when handed over, and the instance may have
+                    # rendered another frame before: the render shows the frame the IMAGE is set to
+                    d["pil_at"] = rng.choice([None, 0, 1, 2])
+                    d["pre_frame"] = rng.choice([None, None, 1, 2])
                 d["entry"] = rng.choice(["str", "format", "format", None] + (["iter", "iter"] if d.get("animated") else []))
+                if d["entry"] == "iter":
+                    d["pil_at"] = None
                 if d["entry"]:
                     d["split"] = False
                     d["prerender"] = False
@@ -163,7 +169,13 @@ class C02(Property):
             k = 0
         else:
             return imgkit.make_image(d), (lambda: BlockImage(imgkit.make_image(d))), 0
-        make = (lambda: BlockImage.from_file(path)) if d["source"] == "file" else (lambda: BlockImage(Image.open(path)))
+        def open_pil():
+            pil = Image.open(path)
+            if d.get("animated") and d.get("pil_at"):
+                pil.seek(min(d["pil_at"], getattr(pil, "n_frames", 1) - 1))
+            return pil
+
+        make = (lambda: BlockImage.from_file(path)) if d["source"] == "file" else (lambda: BlockImage(open_pil()))
         return src, make, k
 
     def _image(self, d):
@@ -206,6 +218,10 @@ class C02(Property):
             cap["mode"], cap["rgb"], cap["a"] = r[0].mode, r[1], r[2]
             return r
 
+        if d.get("animated") and d.get("pre_frame") and im._is_animated:
+            im.seek(min(d["pre_frame"], im.n_frames - 1))
+            str(im)
+            im.seek(0)
         if d.get("prerender"):
             # the same instance rendered before with the same settings: nothing may carry over
             im._renderer(im._render_image, d["alpha"], split_cells=d["split"])
@@ -220,8 +236,8 @@ class C02(Property):
             txt = format(alpha, ".25f")[1:]
             if float("0" + txt) != alpha:
                 entry = None  # not spellable exactly: use the direct entry
-        if d.get("_frame") and entry != "iter":
-            im.seek(d["_frame"])
+        if entry != "iter" and im._is_animated:
+            im.seek(d["_frame"])  # explicitly, also to 0: the instance starts where the caller's PIL image stood
         if not entry:
             out = im._renderer(im._render_image, alpha, split_cells=d["split"])
         elif entry == "str":
